@@ -271,25 +271,37 @@ fn one(m: &Machine, seed: u64, i: usize, b: &Value) -> Value {
     let graph = a
         .client
         .new_graph(&[0u8], VmAction { name: ident!("init"), args: vec![VmValue::Int(1 + rng.below(1000) as i64), VmValue::Bytes(a.ident_pk.clone()), VmValue::Bytes(a.sign_pk.clone())].into() }, &mut sink)
-        .unwrap_or_else(|e| vrt::die(&format!("new_graph: {e}")));
+        ;
+    let graph = match graph {
+        Ok(g) => g,
+        Err(e) => return fail(i, 0, "C35:honest-action-rejected:init", &format!("the honest author's init action (sealed and opened by the signing policy) failed: {e}"), json!({})),
+    };
     let (ipk, spk) = (a.ident_pk.clone(), a.sign_pk.clone());
-    a.act(graph, ident!("add_device_keys"), vec![VmValue::Bytes(ipk), VmValue::Bytes(spk)])
-        .unwrap_or_else(|e| vrt::die(&format!("add_device_keys(A): {e}")));
+    if let Err(e) = a.act(graph, ident!("add_device_keys"), vec![VmValue::Bytes(ipk), VmValue::Bytes(spk)]) {
+        return fail(i, 1, "C35:honest-action-rejected:add_device_keys", &format!("the honest author's add_device_keys action failed: {e}"), json!({}));
+    }
     // C joins: receives A's two commands, registers itself, A receives C's command
     for w in a.commands(graph).unwrap_or_else(|e| vrt::die(&e)) {
         let (r, _) = c.deliver(graph, &w);
-        r.unwrap_or_else(|e| vrt::die(&format!("setup: C rejects A's honest command: {e}")));
+        if let Err(e) = r {
+            return fail(i, 1, "C35:honest-rejected", &format!("a third replica rejects A's untampered command: {e}"), json!({"kind": kind_of(&w)}));
+        }
     }
     let (ipk, spk) = (c.ident_pk.clone(), c.sign_pk.clone());
-    c.act(graph, ident!("add_device_keys"), vec![VmValue::Bytes(ipk), VmValue::Bytes(spk)])
-        .unwrap_or_else(|e| vrt::die(&format!("add_device_keys(C): {e}")));
+    if let Err(e) = c.act(graph, ident!("add_device_keys"), vec![VmValue::Bytes(ipk), VmValue::Bytes(spk)]) {
+        return fail(i, 1, "C35:honest-action-rejected:add_device_keys", &format!("a second device's add_device_keys action failed: {e}"), json!({}));
+    }
     let c_cmd = c.commands(graph).unwrap_or_else(|e| vrt::die(&e)).pop().expect("C's command");
     let (r, _) = a.deliver(graph, &c_cmd);
-    r.unwrap_or_else(|e| vrt::die(&format!("setup: A rejects C's honest command: {e}")));
+    if let Err(e) = r {
+        return fail(i, 1, "C35:honest-rejected", &format!("A rejects the second device's untampered command: {e}"), json!({}));
+    }
     for k in 0..n {
         let v = 1 + rng.below(9) as i64;
         let name = if k == 0 { ident!("create_action") } else { ident!("increment") };
-        a.act(graph, name, vec![VmValue::Int(v)]).unwrap_or_else(|e| vrt::die(&format!("A's action {k}: {e}")));
+        if let Err(e) = a.act(graph, name.clone(), vec![VmValue::Int(v)]) {
+            return fail(i, 2 + k, &format!("C35:honest-action-rejected:{name}"), &format!("the honest author's action failed: {e}"), json!({}));
+        }
     }
     let hist = a.commands(graph).unwrap_or_else(|e| vrt::die(&e));
     if hist.len() != 3 + n {
